@@ -42,6 +42,11 @@ EmptyRootHex == "56e81f171bcc55a6ff8345e692c0f86e5b48e01b996cadc001622fb5e363b42
 
 Tag(c, t) == IF c THEN <<>> ELSE <<t>>
 
+(* failed judgements are reported at most 20 times per signature (tag, event): the state stays small *)
+Fresh(ev, j) == LET Occ(t) == Cardinality({i \in 1..Len(bad) : bad[i][2] = ev /\ bad[i][3] = t})
+                    keep == SelectSeq(j, LAMBDA t : Occ(t) < 20)
+                IN  [i \in 1..Len(keep) |-> <<l, ev, keep[i]>>]
+
 Obs(e)  == [k \in AllKeyIds |-> e.proj.gets[k]]
 Sane(c) == \A k \in AllKeyIds : c[k] \in 0..8
 
@@ -132,7 +137,7 @@ TraceNext ==
          /\ tree' = e.proj.tree
          /\ limit' = IF e.event = "L" THEN e.v ELSE IF e.event \in {"R", "X", "Reset"} THEN 0 ELSE limit
          /\ prevOK' = (j = <<>>)
-         /\ bad' = bad \o [i \in 1..Len(j) |-> <<l, e.event, j[i]>>]
+         /\ bad' = bad \o Fresh(e.event, j)
          /\ IF j = <<>> /\ c2 \notin DOMAIN Cache THEN TLCSet(1, Cache @@ (c2 :> ProjKey(e.proj))) ELSE TRUE
 
 TraceSpec == TraceInit /\ [][TraceNext]_tvars
